@@ -494,6 +494,24 @@ def fold_pair_samples(draw, universe, strs=None):
     return [{h1: {a: o1, "m1": 1}, h2: {b: o2, "m2": "t", "m3": 2}}]
 
 
+@st.composite
+def equal_but_typed_samples(draw, universe, strs=None):
+    """adjacent samples that are == in Python but hold different JSON scalar types (10 / 10.0, true / 1, false / 0)"""
+    k = draw(st.sampled_from(universe))
+    a, b = draw(st.sampled_from([(10, 10.0), (10.0, 10), (True, 1), (1, True), (False, 0), (0, False), (0, 0.0), (1.0, True)]))
+    depth = draw(st.integers(0, 2))
+
+    def wrapv(v):
+        for _ in range(depth):
+            v = {k: v} if draw(st.booleans()) else [v]
+        return v
+    other = {u: 1 for u in universe[:2] if u != k}
+    samples = [dict(other, **{k: wrapv(a)}), dict(other, **{k: wrapv(b)})]
+    if draw(st.booleans()):
+        samples.append(dict(other, **{k: wrapv(a)}))
+    return samples
+
+
 def sample_lists(universe, strs=None, max_samples=5, max_leaves=10, weights=None):
     """G-JSON: the mix of generic and boosted shapes for one key universe."""
     parts = [
@@ -509,6 +527,7 @@ def sample_lists(universe, strs=None, max_samples=5, max_leaves=10, weights=None
         literal_boundary_samples(universe, strs),
         comma_collision_samples(universe, strs),
         fold_pair_samples(universe, strs),
+        equal_but_typed_samples(universe, strs),
     ]
     return st.one_of(*parts)
 
